@@ -354,7 +354,7 @@ class ParserModel:
             out[n] = out.get(n, frozenset()) | ts
             node = cfg.nodes[n]
             consumes = node.kind in ("stmt", "test", "iter", "with") and self.node_may_consume(node.ast)
-            ts_after = self.types if consumes else ts
+            ts_after = self._after_calls(node.ast) if consumes else ts
             stale2 = frozenset(al_all) if consumes else stale
             if isinstance(node.ast, ast.Assign) and len(node.ast.targets) == 1 and isinstance(node.ast.targets[0], ast.Name):
                 tgt = node.ast.targets[0].id
@@ -372,6 +372,36 @@ class ParserModel:
                         continue
                 work.append((s, ts2, stale2))
         return out
+
+    def exit_types(self, name: str) -> frozenset[str]:
+        """token types the current token can have when Parser.<name> returns normally"""
+        memo = self.__dict__.setdefault("_exit_types", {})
+        if name in memo:
+            return memo[name]
+        memo[name] = self.types  # recursion: anything
+        fi = self.method(name)
+        if fi is None:
+            return self.types
+        cfg = self.cfg(fi)
+        rt = self.reaching_types(fi)
+        memo[name] = rt.get(cfg.exit, frozenset()) or self.types
+        return memo[name]
+
+    def _after_calls(self, node_ast: ast.AST | None) -> frozenset[str]:
+        """types possible after a node that may consume: the post-condition of its last consuming call when that call is
+        the whole statement (`self.m(...)` / `x = self.m(...)`), otherwise anything"""
+        if node_ast is None:
+            return self.types
+        call = None
+        if isinstance(node_ast, ast.Expr) and isinstance(node_ast.value, ast.Call):
+            call = node_ast.value
+        elif isinstance(node_ast, ast.Assign) and isinstance(node_ast.value, ast.Call):
+            call = node_ast.value
+        if call is not None and isinstance(call.func, ast.Attribute) and isinstance(call.func.value, ast.Name) and call.func.value.id == "self" and call.func.attr in self.cls.methods and call.func.attr not in ("advance", "expect"):
+            inner = [c for a in list(call.args) + [k.value for k in call.keywords] for c in ast.walk(a) if isinstance(c, ast.Call)]
+            if not any(isinstance(c.func, ast.Attribute) and isinstance(c.func.value, ast.Name) and c.func.value.id == "self" and c.func.attr in self.may_consume_methods() for c in inner):
+                return self.exit_types(call.func.attr)
+        return self.types
 
     # ------------------------------------------------------------ loops
     def loop_cycles_without_progress(self, fi: FuncInfo, head: int):
